@@ -93,101 +93,3 @@ fn existence_scan_protocol() {
     kani::cover!(gens == 1 && finds == 1);
     kani::cover!(finds == 2 && gens == 1);
 }
-
-// ---- C03 / C15 / C16: what Dir::write_entry puts into the directory ----
-
-static mut G_FREE_NUM: u32 = 0;
-const SLOT: u64 = 3;
-
-/// contract of Dir::find_free_entries: a clone of the directory stream positioned at the first of `num_entries`
-/// consecutive free slots (which slot is the callee's business; the harness fixes one)
-fn stub_find_free<'a, IO: ReadWriteSeek, TP: TimeProvider, OCC: OemCpConverter>(
-    this: &Dir<'a, IO, TP, OCC>,
-    num_entries: u32,
-) -> Result<DirRawStream<'a, IO, TP, OCC>, Error<IO::Error>>
-where
-    'a: 'a,
-{
-    unsafe { G_FREE_NUM = num_entries };
-    let mut stream = this.stream.clone();
-    stream.seek(SeekFrom::Start(SLOT * 32))?;
-    Ok(stream)
-}
-
-/// UTF-16 unit k (0..13) of a serialized long-name slot
-fn slot_unit(b: &[u8], k: usize) -> u16 {
-    let o = if k < 5 { 1 + 2 * k } else if k < 11 { 14 + 2 * (k - 5) } else { 28 + 2 * (k - 11) };
-    le16(b, o)
-}
-
-const NLEN: usize = 14;
-
-// @obl props=C03,C15,C16 tier=quick fns=Dir::write_entry,Dir::alloc_and_write_lfn_entries,Dir::encode_lfn_utf16,LfnEntriesGenerator::next,DirLfnEntryData::serialize,DirFileEntryData::serialize timeout=900
-// @bound one name length (14 letters: two long-name slots, the second partially filled), one slot position in a FAT12 root directory; letters, the 11 alias bytes and every other field of the short entry symbolic
-// @desc Dir::write_entry (real body; find_free_entries replaced by its contract) stores a 14-letter name as: slot run requested = 2 long-name slots + 1 short entry; first the slot numbered 2 with the last-flag (0x42), then slot 1, then the short entry, contiguous from the position find_free_entries returned; every long-name slot carries attribute 0x0F, type 0, cluster 0 and the checksum of THE alias bytes stored in the short entry (rotate-right sum, obligation lfn_checksum_spec); the units are the name's UTF-16 units in order, then one 0x0000 terminator, then 0xFFFF padding (lossless storage); the short entry bytes are the serialized entry as given; the returned descriptor points at the short entry (entry_pos) and at the whole run (offset_range) and carries the name; nothing outside the three slots is written
-#[kani::proof]
-#[kani::unwind(34)]
-#[kani::stub(crate::dir::Dir::find_free_entries, stub_find_free)]
-fn write_entry_layout() {
-    let bpb = crate::fs::verif_kani::bpb_fat12();
-    let root_begin = (bpb.reserved_sectors as u64 + bpb.fats as u64 * bpb.sectors_per_fat() as u64) * bpb.bytes_per_sector as u64;
-    let lo = root_begin + SLOT * 32;
-    let dev = WinDev::<96>::new(lo);
-    // (volume already marked dirty: the status byte is not this obligation's subject)
-    let fs = crate::fs::verif_kani::mk_fs_plain(dev, bpb, FsStatusFlags { dirty: true, io_error: false }, crate::fs::verif_kani::opts(false, SymTime::fixed()));
-    let root = fs.root_dir();
-    let letters: [u8; NLEN] = kani::any();
-    let mut i = 0;
-    while i < NLEN {
-        kani::assume((letters[i] >= b'a' && letters[i] <= b'z') || (letters[i] >= b'A' && letters[i] <= b'Z'));
-        i += 1;
-    }
-    let name: &str = unsafe { core::str::from_utf8_unchecked(&letters) };
-    let raw = crate::dir_entry::verif_kani::any_sfn_data();
-    let alias: [u8; 11] = *raw.name();
-    let mut chk: u8 = 0;
-    let mut i = 0;
-    while i < 11 {
-        chk = (((chk & 1) << 7) as u8).wrapping_add(chk >> 1).wrapping_add(alias[i]);
-        i += 1;
-    }
-    let r = root.write_entry(name, raw.clone());
-    assert!(r.is_ok());
-    let e = r.unwrap();
-    assert!(unsafe { G_FREE_NUM } == 3);
-    assert!(e.entry_pos == lo + 64);
-    assert!(e.offset_range == (SLOT * 32, SLOT * 32 + 96));
-    let d = fs.disk.borrow();
-    assert!(!d.outside);
-    let b = &d.data;
-    // slot headers
-    assert!(b[0] == 0x42 && b[32] == 0x01);
-    assert!(b[11] == 0x0F && b[32 + 11] == 0x0F && b[12] == 0 && b[32 + 12] == 0);
-    assert!(b[13] == chk && b[32 + 13] == chk);
-    assert!(b[26] == 0 && b[27] == 0 && b[32 + 26] == 0 && b[32 + 27] == 0);
-    // units: slot 1 (second on disk) holds units 0..13, slot 2 (first on disk) holds unit 13, terminator, padding
-    let k: usize = kani::any();
-    kani::assume(k < 13);
-    assert!(slot_unit(&b[32..64], k) == letters[k] as u16);
-    let want = if k == 0 { letters[13] as u16 } else if k == 1 { 0 } else { 0xFFFF };
-    assert!(slot_unit(&b[0..32], k) == want);
-    // the short entry: alias bytes first, then the fields as given
-    let j: usize = kani::any();
-    kani::assume(j < 11);
-    assert!(b[64 + j] == alias[j]);
-    assert!(le32(&b[64..96], 28) == crate::dir_entry::verif_kani::d_size_raw(&raw));
-    // the descriptor carries the name
-    #[cfg(feature = "lfn")]
-    {
-        let u = e.lfn_utf16.as_ucs2_units();
-        assert!(u.len() == NLEN);
-        let m: usize = kani::any();
-        kani::assume(m < NLEN);
-        assert!(u[m] == letters[m] as u16);
-    }
-    kani::cover!(chk == 0x5A && letters[0] == b'q');
-    core::mem::forget(e);
-    drop(d);
-    core::mem::forget(root);
-    core::mem::forget(fs);
-}
